@@ -342,7 +342,8 @@ Lemma open_wal_unfold c e :
   if negb (FirstExternalCodecID <=? c_codec c) && negb (c_codec c =? BinaryCodecID) then (OErr RErrOther, e)
   else
     let '(ok0, e0) := if dk_inited (e_disk e) then (true, e) else io AInitMeta e in
-    if negb ok0 then (OErr RErrIO, e0) else open_rest c e0.
+    if negb ok0 then (OErr RErrIO, e0)
+    else if armed e0 && fx_list (e_fx e0) then (OErr RErrIO, list_failed e0) else open_rest c e0.
 Proof. reflexivity. Qed.
 
 Lemma garbage_spec segs (fs : list (fname * dfile)) n :
@@ -530,8 +531,8 @@ Proof.
   { destruct Hc as ([Hc|Hc] & _); lia. }
   rewrite Hcod.
   destruct (dk_inited (e_disk e)) eqn:Hi.
-  - cbn [negb]. apply open_rest_ok; assumption.
-  - rewrite (io_ok AInitMeta e Hf). cbn [negb].
+  - cbn [negb]. unfold armed. rewrite Hf. cbn [andb]. apply open_rest_ok; assumption.
+  - rewrite (io_ok AInitMeta e Hf). cbn [negb]. change (armed (io_env AInitMeta e) && fx_list (e_fx (io_env AInitMeta e))) with false. cbv iota.
     set (e0 := io_env AInitMeta e).
     assert (HD0 : DIs c nb (e_disk e0)) by (apply DIs_initmeta; exact HD).
     assert (HN0 : no_pend (e_disk e0)) by (eapply no_pend_same; [|exact HN]; reflexivity).
